@@ -321,7 +321,14 @@ func DecodeExpression(expr hcl.Expression, ctx *hcl.EvalContext, val interface{}
 		panic(fmt.Sprintf("unsuitable DecodeExpression target: %s", err))
 	}
 
+	origVal := srcVal
 	srcVal, err = convert.Convert(srcVal, convTy)
+	if err != nil && origVal.ContainsMarked() {
+		// The conversion error may quote map keys or attribute names of the
+		// value, which for a marked value may be content the calling
+		// application considers sensitive, so we only describe the wanted type.
+		err = fmt.Errorf("%s required", convTy.FriendlyNameForConstraint())
+	}
 	if err != nil {
 		diags = append(diags, &hcl.Diagnostic{
 			Severity: hcl.DiagError,
